@@ -66,7 +66,8 @@ theorem cw_schulze {v : Pairwise} (hwf : WF v) {w : Cand} (hw : IsCW v w) : schu
     at its first test). -/
 theorem cw_benham {p : Profile} (hwf : WF (rankedToCondorcet p)) {w : Cand} (hw : IsCW (rankedToCondorcet p) w) :
     benham p = .ok [Slot.cand w] := by
-  unfold benham
+  rw [benham_of_not_lone (not_lone_of_cw hwf hw)]
+  unfold benhamCore
   rw [show (allRankedCandidates p).length + 3 = ((allRankedCandidates p).length + 2) + 1 from rfl]
   unfold benhamLoop
   have : benhamCW p = some w := by
@@ -89,7 +90,8 @@ theorem cw_tideman {p : Profile} (hwf : WF (rankedToCondorcet p)) {w : Cand} (hw
     rw [hne]
     have hs : smithSchwartz (rankedToCondorcet p) true = [w] := smithSet_of_cw hwf hw
     simp only [Bool.false_eq_true, if_false, hs]
-  unfold tideman
+  rw [tideman_of_not_lone (not_lone_of_cw hwf hw)]
+  unfold tidemanCore
   rw [htier]
   simp only
   rw [if_pos (List.contains_iff_mem.2 (candidates_rankedToCondorcet_sub p hw.1))]
@@ -143,7 +145,7 @@ theorem tidemanN_one (smith : Bool) (p : Profile) : tidemanN smith p 1 = tideman
   simp only
   rw [show (allRankedCandidates p).length + 2 = ((allRankedCandidates p).length + 1) + 1 from rfl]
   unfold tidemanLoop
-  cases tidemanTier smith ((allRankedCandidates p).length + 3) p with
+  cases tidemanRunTier smith ((allRankedCandidates p).length + 3) p with
   | error e => rfl
   | ok s =>
     cases s with
@@ -154,11 +156,19 @@ theorem tidemanN_one (smith : Bool) (p : Profile) : tidemanN smith p 1 = tideman
       | true => simp
       | false => simp
 
-/-- the last tier of an all-seats evaluation holds a lone candidate, whose pairwise dictionary is empty: the
-    set selector returns nothing and `eliminate_one` ends in IndexError (open finding; tie-free profile) -/
-theorem tideman_all_seats_witness :
+/-- **A lone candidate takes the seat** (both hybrids, either set selector): with a single ranked candidate there
+    is no pairwise contest, and since the lone-candidate fix the evaluators elect that candidate instead of
+    running out of candidates (IndexError before). -/
+theorem lone_candidate_elected {p : Profile} {c : Cand} (h : allRankedCandidates p = [c]) (smith : Bool) :
+    benham p = .ok [Slot.cand c] ∧ tideman smith p = .ok [Slot.cand c] := ⟨benham_lone h, tideman_lone h⟩
+
+/-- all seats can be filled: the last tier of an all-seats evaluation holds a lone candidate, who takes the last
+    seat (IndexError before the lone-candidate fix); tie-free chain `abc:3, bac:2` -/
+theorem tideman_all_seats_example :
     tidemanN true [([.one 0, .one 1, .one 2], 3), ([.one 1, .one 0, .one 2], 2)] 2 = .ok [Slot.cand 0, Slot.cand 1] ∧
-    tidemanN true [([.one 0, .one 1, .one 2], 3), ([.one 1, .one 0, .one 2], 2)] 3 = .error (.other "IndexError") := by
+    tidemanN true [([.one 0, .one 1, .one 2], 3), ([.one 1, .one 0, .one 2], 2)] 3 =
+      .ok [Slot.cand 0, Slot.cand 1, Slot.cand 2] ∧
+    benham [([.one 0], 5)] = .ok [Slot.cand 0] ∧ tideman true [([.one 0], 5)] = .ok [Slot.cand 0] := by
   decide +kernel
 
 /-! ### Smith efficiency -/
@@ -230,18 +240,29 @@ theorem isPath_iff {pairs : List Pair} {source sink : Cand} (hne : source ≠ si
   ⟨isPath_sound, isPath_complete hne⟩
 
 /-- **Tideman alternative's answer lies in the Smith set** of the pairwise counts of the profile, whenever it
-    answers: after the first restriction to the Smith set every remaining candidate is a member of it. -/
+    answers: after the first restriction to the Smith set every remaining candidate is a member of it.  (A lone
+    candidate has no pairwise contest at all — the pairwise dictionary is empty — and is elected as such.) -/
 theorem tideman_in_smith {p : Profile} {r : List Slot} (h : tideman true p = .ok r) :
+    (∃ c, allRankedCandidates p = [c] ∧ r = [Slot.cand c]) ∨
     ∃ c, r = [Slot.cand c] ∧ c ∈ smithSet (rankedToCondorcet p) := by
-  unfold tideman at h
-  split at h
-  · simp at h
-  · rename_i c htier
+  by_cases hl : ∃ c, allRankedCandidates p = [c]
+  · obtain ⟨c, hc⟩ := hl
+    left
+    rw [tideman_lone hc] at h
+    simp only [Except.ok.injEq] at h
+    exact ⟨c, hc, h.symm⟩
+  · right
+    have hl' : ∀ c, allRankedCandidates p ≠ [c] := fun c hc => hl ⟨c, hc⟩
+    rw [tideman_of_not_lone hl'] at h
+    unfold tidemanCore at h
     split at h
-    · simp only [Except.ok.injEq] at h
-      exact ⟨c, h.symm, tidemanTier_in_smith p _ p (Or.inl rfl) c htier⟩
     · simp at h
-  · simp at h
+    · rename_i c htier
+      split at h
+      · simp only [Except.ok.injEq] at h
+        exact ⟨c, h.symm, tidemanTier_in_smith p _ p (Or.inl rfl) c htier⟩
+      · simp at h
+    · simp at h
 
 /-! ### nobody who took part in a pairwise contest is dropped -/
 
